@@ -7,20 +7,30 @@ namespace DirectVerif.Bridge.C06
 open DirectVerif DirectVerif.MaskGeom DirectVerif.Gen.C06
 
 theorem center_mask_pad_eq (n l : Int) : center_mask_pad n l = centerPad n l := by
-  simp only [center_mask_pad, centerPad, Int.fdiv_eq_ediv_of_nonneg _ (by decide : (0 : Int) ≤ 2)]
+  unfold center_mask_pad centerPad
+  simp only [Int.fdiv_eq_ediv_of_nonneg _ (by decide : (0 : Int) ≤ 2)]
+  try omega
 
 /-- the slice `mask[pad : pad + num_low_freqs] = True` -/
 theorem center_mask_lo_eq (n l : Int) : center_mask_lo n l = centerPad n l := by
-  simp only [center_mask_lo, centerPad, Int.fdiv_eq_ediv_of_nonneg _ (by decide : (0 : Int) ≤ 2)]
+  unfold center_mask_lo centerPad
+  simp only [Int.fdiv_eq_ediv_of_nonneg _ (by decide : (0 : Int) ≤ 2)]
+  try omega
 
 theorem center_mask_hi_eq (n l : Int) : center_mask_hi n l = centerPad n l + l := by
-  simp only [center_mask_hi, centerPad, Int.fdiv_eq_ediv_of_nonneg _ (by decide : (0 : Int) ≤ 2)]
+  unfold center_mask_hi centerPad
+  simp only [Int.fdiv_eq_ediv_of_nonneg _ (by decide : (0 : Int) ≤ 2)]
+  try omega
 
 theorem zero_pad_start_eq (t c : Int) : zero_pad_start t c = zeroPadStart t c := by
-  simp only [zero_pad_start, zeroPadStart, Int.fdiv_eq_ediv_of_nonneg _ (by decide : (0 : Int) ≤ 2)]
+  unfold zero_pad_start zeroPadStart
+  simp only [Int.fdiv_eq_ediv_of_nonneg _ (by decide : (0 : Int) ≤ 2)]
+  try omega
 
 theorem zero_pad_stop_eq (t c : Int) : zero_pad_stop t c = zeroPadStart t c + c := by
-  simp only [zero_pad_stop, zeroPadStart, Int.fdiv_eq_ediv_of_nonneg _ (by decide : (0 : Int) ≤ 2)]
+  unfold zero_pad_stop zeroPadStart
+  simp only [Int.fdiv_eq_ediv_of_nonneg _ (by decide : (0 : Int) ≤ 2)]
+  try omega
 
 /-- `num_low_freqs` glue -/
 theorem num_low_random_eq (f r c : Int) : num_low_random f r c = numLowFreqs (f != 0) r c := by
@@ -47,7 +57,9 @@ theorem magic_adjusted_target_eq (n : Nat) (l t : Int) :
 /-- `centered_disk_mask`: centre sample `(rows // 2, cols // 2)`, strict `<` against `radius²` -/
 theorem disk_pred_eq (rows cols : Nat) (radius : Int) (x y : Nat) :
     disk_pred rows cols radius x y = inDisk rows cols radius x y := by
-  simp only [disk_pred, inDisk, Int.fdiv_eq_ediv_of_nonneg _ (by decide : (0 : Int) ≤ 2)]
+  unfold disk_pred inDisk
+  simp only [Int.fdiv_eq_ediv_of_nonneg _ (by decide : (0 : Int) ≤ 2)]
+  try omega
   have e1 : ((rows : Int) / 2) = ((rows / 2 : Nat) : Int) := by omega
   have e2 : ((cols : Int) / 2) = ((cols / 2 : Nat) : Int) := by omega
   rw [e1, e2]
